@@ -117,6 +117,10 @@ pub enum Error {
     RangeAndPluralsMix {
         key_path: KeyPath,
     },
+    PluralExplicitDefault {
+        locale: Key,
+        key_path: KeyPath,
+    },
     PluralsAtNormalKey {
         locale: Key,
         key_path: KeyPath,
@@ -222,6 +226,7 @@ impl Display for Error {
             Error::CountArgNoMatch { locale, key_path, foreign_key } => write!(f, "Invalid arg \"count\" in locale {:?} at key \"{}\" to foreign key \"{}\": argument \"count\" does not match any of the ranges and there is no fallback.", locale, key_path, foreign_key),
             Error::UnexpectedToken { locale, key_path, message } => write!(f, "Unexpected error occured while parsing key \"{}\" in locale {:?}: {}", key_path, locale, message),
             Error::RangeAndPluralsMix { key_path } => write!(f, "mixing plurals and ranges are not supported yet, for key \"{}\"", key_path),
+            Error::PluralExplicitDefault { key_path, locale } => write!(f, "In locale {:?} at key \"{}\", explicit defaults (null) are not allowed as a plural form.", locale, key_path),
             Error::PluralsAtNormalKey { key_path, locale } => write!(f, "In locale {:?} at key \"{}\", Found plurals but a key of that name is already present.", locale, key_path),
             Error::DisabledFormatter { locale, key_path, formatter } => write!(f, "{}, at key \"{}\" in locale {:?}", formatter.err_message(), key_path, locale),
             Error::DisabledPlurals { locale, key_path } => write!(f, "Plurals are not enabled, enable the \"plurals\" feature to use them, at key \"{}\" in locale {:?}", key_path, locale),
